@@ -36,7 +36,13 @@ func sliceEq(a, b any) bool {
 		return false
 	}
 	for i := 0; i < x.Len(); i++ {
-		if !reflect.DeepEqual(x.Index(i).Interface(), y.Index(i).Interface()) {
+		a, b := x.Index(i).Interface(), y.Index(i).Interface()
+		if !reflect.DeepEqual(a, b) {
+			if fa, ok := a.(float64); ok && fa != fa {
+				if fb, ok := b.(float64); ok && fb != fb {
+					continue // NaN stays NaN
+				}
+			}
 			return false
 		}
 	}
@@ -230,6 +236,24 @@ func anyCmp(x, y any) int {
 		return a - y.(int)
 	case Val:
 		return int(a - y.(Val))
+	case float64:
+		b := y.(float64)
+		switch {
+		case a < b:
+			return -1
+		case a > b:
+			return 1
+		case a == b:
+			return 0
+		}
+		// NaN: order NaNs before everything, two NaNs by nothing (they are all alike)
+		if a != a && b != b {
+			return 0
+		}
+		if a != a {
+			return -1
+		}
+		return 1
 	case string:
 		b := y.(string)
 		switch {
